@@ -126,8 +126,22 @@ func readAll(data []byte, sizes []int, tailErr bool, measure bool) (obs readObs,
 	case <-done:
 	case <-time.After(20 * time.Second):
 		special = "timeout"
+		timeouts++
 	}
 	return
+}
+
+// timeouts counts watchdog verdicts. A reader that spins or blocks forever leaves its goroutine
+// behind, so after two of them the run is cut short: the cases already printed are the replay.
+var timeouts int
+var statsPath string
+
+func abortIfStuck(out *vc.Out) {
+	if timeouts >= 2 {
+		out.Count("aborted-after-timeouts")
+		out.Finish(statsPath, nil)
+		os.Exit(0)
+	}
 }
 
 func (o readObs) String() string {
@@ -204,6 +218,85 @@ func runRT(pk []pkt, sizes []int, tailErr bool) (caseStr, obs string) {
 		wc[i] = strconv.Itoa(n)
 	}
 	return caseStr, ro.String() + " wire " + vc.Hex(wire) + " wc " + strings.Join(wc, ",")
+}
+
+// capBody is the body of an `rtcap` case: mostly zeros (so that it compresses far below the wire
+// limit) with markers that make a shifted, truncated or padded copy differ.
+func capBody(size int) []byte {
+	b := make([]byte, size)
+	for i := 0; i < size; i += 4099 {
+		b[i] = byte(i/4099%251 + 1)
+	}
+	if size > 0 {
+		b[size-1] = 0xA5
+	}
+	return b
+}
+
+// runCap: `rtcap <ty> <comp> <size>`: one packet whose body has exactly <size> bytes, followed by a
+// heartbeat, through the real writer and the real reader (chunks 3, 70000, 1, rest).  Bodies at the
+// 16 MiB cap are too large for the Lean driver's list representation, so the comparison with what
+// was written is made here and the observation is a summary:
+//
+//	ok <len> same|differ trailer <0|1>   |   writeerr <..>   |   fail <stage> after <n packets>
+func runCap(ty int, comp bool, size int) (caseStr, obs string) {
+	c := "0"
+	if comp {
+		c = "1"
+	}
+	caseStr = fmt.Sprintf("rtcap %d %s %d", ty, c, size)
+	body := capBody(size)
+	var buf recWriter
+	w := stream.NewStreamProcessor(nil, &buf, context.Background())
+	done := make(chan string, 1)
+	go func() {
+		defer func() {
+			if r := recover(); r != nil {
+				done <- "panic " + strings.ReplaceAll(fmt.Sprint(r), " ", "_")
+			}
+		}()
+		if _, err := w.WritePacket(&packet.TransferPacket{PacketType: packet.Type(ty), Payload: body}, comp, 0); err != nil {
+			done <- "writeerr " + strings.ReplaceAll(err.Error(), " ", "_")
+			return
+		}
+		if _, err := w.WritePacket(&packet.TransferPacket{PacketType: packet.Type(0x03)}, false, 0); err != nil {
+			done <- "writeerr-trailer " + strings.ReplaceAll(err.Error(), " ", "_")
+			return
+		}
+		cr := vc.NewChunkReader(buf.buf.Bytes(), []int{3, 70000, 1}, false)
+		sp := stream.NewStreamProcessor(cr, nil, context.Background())
+		defer sp.Close()
+		p, _, err := sp.ReadPacket()
+		if err != nil {
+			done <- "fail " + stageOf(err) + " after 0"
+			return
+		}
+		same := "differ"
+		if int(p.PacketType)&0x3F == ty && bytes.Equal(p.Payload, body) {
+			same = "same"
+		}
+		n := len(p.Payload)
+		t, _, err := sp.ReadPacket()
+		trailer := "0"
+		if err == nil && t.PacketType.IsHeartbeat() {
+			trailer = "1"
+		}
+		done <- fmt.Sprintf("ok %d %s trailer %s", n, same, trailer)
+	}()
+	select {
+	case o := <-done:
+		return caseStr, o
+	case <-time.After(60 * time.Second):
+		timeouts++
+		return caseStr, "timeout"
+	}
+}
+
+func emitCap(out *vc.Out, ty int, comp bool, size int) {
+	c, o := runCap(ty, comp, size)
+	out.Case(c, o, c)
+	abortIfStuck(out)
+	out.Count("cap-boundary")
 }
 
 // ---- generators
@@ -316,6 +409,7 @@ func emitRT(out *vc.Out, pk []pkt, sizes []int, tailErr bool, kind string) {
 		key = keyOf(pk, sizes)
 	}
 	out.Case(c, o, key)
+	abortIfStuck(out)
 	out.Count("chunking:" + kind)
 	for _, p := range pk {
 		out.Count(fmt.Sprintf("type:0x%02x", p.ty))
@@ -405,18 +499,17 @@ func genRT(out *vc.Out, r *vc.Rand, thorough bool) {
 			emitRT(out, pk, randSizes(r, n), r.Intn(4) == 0, "random")
 		}
 	}
+	// (4) boundary: bodies of exactly the cap and one below it, plain and compressed (the inflated
+	// size is then the cap)
+	capSz := 16 * 1024 * 1024
+	for _, sz := range []int{capSz - 1, capSz} {
+		emitCap(out, 0x22, false, sz)
+		emitCap(out, 0x22, true, sz)
+	}
 	if thorough {
-		// (4) boundary: a body of exactly the cap, and compressed bodies whose inflated size is the cap
-		capSz := 16 * 1024 * 1024
-		pk := []pkt{{0x22, false, make([]byte, capSz)}, {0x03, false, nil}}
-		c, o := runRT(pk, []int{3, 70000, 1}, false)
-		_ = c
-		// too large for the model driver's list representation: checked against the property directly
-		exp := fmt.Sprintf("pk 2 34 %s 3 - stop type left 0", vc.Hex(pk[0].body))
-		if strings.HasPrefix(o, exp) {
-			out.Count("cap-body-ok")
-		} else {
-			out.Case("rt eof tbl 0 pk 0 ch 0", "cap-body-failed "+o[:min(len(o), 80)], "")
+		for _, ty := range []int{0x01, 0x20, 0x24, 0x3F} {
+			emitCap(out, ty, true, capSz)
+			emitCap(out, ty, false, capSz)
 		}
 	}
 }
@@ -482,8 +575,14 @@ func replayFile(out *vc.Out, path string) {
 			emitRT(out, pk, sizes, tailErr, "corpus")
 		case "raw":
 			replayRaw(out, toks)
+		case "rtcap":
+			ty, _ := strconv.Atoi(toks[1])
+			sz, _ := strconv.Atoi(toks[3])
+			emitCap(out, ty, toks[2] == "1", sz)
 		case "rtw":
 			replayRTW(out, toks)
+		case "cw":
+			replayCW(out, toks)
 		}
 	}
 }
@@ -498,6 +597,7 @@ func main() {
 	noGen := flag.Bool("nogen", false, "only replay the corpus files")
 	flag.Parse()
 	out := vc.NewOut()
+	statsPath = *stats
 	for _, f := range flag.Args() {
 		replayFile(out, f)
 	}
@@ -508,6 +608,8 @@ func main() {
 			genRT(out, r, *tier == "thorough")
 		case "ws":
 			genRTW(out, r, *tier == "thorough")
+		case "cw":
+			genCW(out, r, *tier == "thorough")
 		case "raw":
 			genRaw(out, r, *tier == "thorough")
 		}
